@@ -329,3 +329,75 @@ def check_raw_before_normalised(prog, res, fns, rule='X10'):
                 'un-normalised form' % (p_, norm_text(bad.func)[:40]
                                         if bad is not None else ''))
   return n
+
+
+# ---------------------------------------------------------------------------
+# X11 - a value carried through a loop is read by the loop
+def check_carried_values(prog, res, fns, rule='X11'):
+  """x = start
+     for item in items:
+       ... x = step(...)        # the body never reads x
+     use(x)
+  Only the last iteration survives: each one starts again from whatever the
+  body reads instead of x (typically the un-updated input that x was copied
+  from - `layers = unstack(weights)` where `unstack(trust_projection)` is the
+  running value).  Decided per for loop: a name that is bound before the loop
+  in the same block, re-bound at the top level of the loop body and read after
+  the loop must be read somewhere in the body.  Names bound to a constant
+  before the loop (`found = False`, `best = None`) are flags / search results,
+  not running values, and are exempt."""
+  n = 0
+  for fn in fns:
+    for owner in ast.walk(fn.node):
+      for f in ('body', 'orelse', 'finalbody'):
+        block = getattr(owner, f, None)
+        if not (isinstance(block, list) and block and isinstance(
+            block[0], ast.stmt)):
+          continue
+        for j, loop in enumerate(block):
+          if not isinstance(loop, ast.For):
+            continue
+          bound_in_body = {}
+          for st in loop.body:
+            if isinstance(st, ast.Assign):
+              for t in st.targets:
+                if isinstance(t, ast.Name):
+                  bound_in_body.setdefault(t.id, st)
+          if not bound_in_body:
+            continue
+          tvars = {x.id for x in ast.walk(loop.target)
+                   if isinstance(x, ast.Name)}
+          for name, st in sorted(bound_in_body.items()):
+            if name in tvars:
+              continue
+            before = None
+            for k in range(j - 1, -1, -1):
+              b = block[k]
+              if isinstance(b, ast.Assign) and any(
+                  isinstance(t, ast.Name) and t.id == name
+                  for t in b.targets):
+                before = b
+                break
+            if before is None or isinstance(before.value, ast.Constant) or (
+                isinstance(before.value, (ast.List, ast.Dict, ast.Tuple))
+                and not getattr(before.value, 'elts',
+                                getattr(before.value, 'keys', None))):
+              continue
+            after = any(isinstance(x, ast.Name) and x.id == name and
+                        isinstance(x.ctx, ast.Load)
+                        for b in block[j + 1:] for x in ast.walk(b))
+            if not after:
+              continue
+            n += 1
+            read = any(isinstance(x, ast.Name) and x.id == name and
+                       isinstance(x.ctx, ast.Load)
+                       for b in loop.body for x in ast.walk(b))
+            res.check(read, rule, '%s|%s in for %s' % (
+                fn.qualname, name, norm_text(loop.target)[:30]), fn.loc(st),
+                      'the running value `%s` is read by the loop that '
+                      'updates it' % name,
+                      '`%s` is set before the loop, re-assigned in every '
+                      'iteration (`%s`) and used afterwards, but no iteration '
+                      'reads it: every pass starts over and only the last one '
+                      'survives' % (name, norm_text(st)[:60]))
+  return n
